@@ -542,6 +542,69 @@ def opMediator (j : Json) : R Json := do
   pure (Json.mkObj [("verdicts", Json.arr verdicts.toArray), ("out", Json.arr outJson.toArray),
     ("parseErr", perrJson e), ("delivered", Json.arr delivered.toArray), ("sources", jStrs s.w.sources)])
 
+open Edxml.Tpl in
+def segOf (j : Json) : R Seg := do
+  match ← arr j with
+  | [k, v] =>
+    if (← str k) == "text" then pure (.text (← str v)) else throw "segment"
+  | [k, f, args] =>
+    if (← str k) == "ph" then
+      let fm : Option String ← match f with
+        | Json.null => pure none
+        | x => pure (some (← str x))
+      pure (.ph fm (← strs args))
+    else throw "segment"
+  | _ => throw "segment"
+
+open Edxml.Tpl in
+partial def toksOf (nodes : List Json) : R (List Tok) := do
+  -- group consecutive text / placeholder nodes into runs, scopes become brackets
+  let mut out : List Tok := []
+  let mut run : List Seg := []
+  for n in nodes do
+    let a ← arr n
+    match a with
+    | [k, inner] =>
+      if (← str k) == "scope" then
+        out := out ++ [Tok.run run, Tok.openScope] ++ (← toksOf (← arr inner)) ++ [Tok.closeScope]
+        run := []
+      else
+        run := run ++ [← segOf n]
+    | _ => run := run ++ [← segOf n]
+  pure (out ++ [Tok.run run])
+
+def tableOf (j : Json) : R (String → List String) := do
+  let rows ← (← arr j).mapM (pairOf str strs)
+  pure fun k => match rows.find? (·.1 == k) with
+    | some r => r.2
+    | none => []
+
+def table2Of (j : Json) : R (String → String → Option String) := do
+  let rows ← (← arr j).mapM fun r => do
+    match ← arr r with
+    | [a, b, c] => pure ((← str a, ← str b), ← str c)
+    | _ => throw "table row"
+  pure fun a b => (rows.find? (·.1 == (a, b))).map (·.2)
+
+open Edxml.Tpl in
+def opTemplate (j : Json) : R Json := do
+  let toks ← toksOf (← fldArr j "nodes")
+  let et : EType := { props := ← (← fldArr j "props").mapM (pairOf str str), attachments := ← fldStrs j "attachments" }
+  let valid := validate et toks
+  let outs ← (← fldArr j "envs").mapM fun e => do
+    let shown ← tableOf (← fld e "shown")
+    let raw ← tableOf (← fld e "raw")
+    let atts ← tableOf (← fld e "atts")
+    let dates ← table2Of (← fld e "dates")
+    let spans ← table2Of (← fld e "spans")
+    let durations ← table2Of (← fld e "durations")
+    let env : Env := ⟨shown, raw, atts, dates, spans, durations⟩
+    match evaluate env toks with
+    | .ok s => pure (Json.mkObj [("ok", s)])
+    | .error err => pure (Json.str (match err with
+        | .badBoolean => "badBoolean" | .badDate => "badDate" | .badArguments => "badArguments" | .unbalanced => "unbalanced"))
+  pure (Json.mkObj [("valid", valid), ("outs", Json.arr outs.toArray)])
+
 def dispatch (j : Json) : R Json := do
   match ← fldStr j "op" with
   | "ping" => pure (Json.mkObj [("pong", true)])
@@ -564,6 +627,7 @@ def dispatch (j : Json) : R Json := do
   | "wstream" => opWStream j
   | "miner" => opMiner j
   | "mediator" => opMediator j
+  | "template" => opTemplate j
   | x => throw s!"unknown op {x}"
 
 partial def loop (inp out : IO.FS.Stream) : IO Unit := do
